@@ -486,7 +486,23 @@ func (c *ctl) track(g *gor, id string, v []int) {
 	}
 }
 
+// what mainLoop reports about its input buffer, recorded in both modes (plain atomics: the only observation of the points
+// that is kept once the goroutines run freely): bytes taken out of keychan so far, and buf.Len() at the end of the last
+// chunk / timer branch (-1 while a chunk is being scanned)
+var mainRecv, mainBuf atomic.Int64
+
 func (c *ctl) point(id string, vals ...int) {
+	switch id {
+	case "main-chunk":
+		if len(vals) > 0 {
+			mainBuf.Store(-1)
+			mainRecv.Add(int64(vals[0]))
+		}
+	case "main-chunk-end", "main-timer-end":
+		if len(vals) > 0 {
+			mainBuf.Store(int64(vals[0]))
+		}
+	}
 	if c.free.Load() {
 		return
 	}
@@ -796,6 +812,11 @@ type scenario struct {
 	suspendedNow  bool // between the return of Suspend and the next Resume
 	resumed       bool
 	traceAtResume int
+
+	userQuitClosed atomic.Bool // op `userquit`: the quit channel handed to ChannelEvents was closed on a live screen
+	timed          bool        // ops `inj` / `esccheck` / `keycheck` were used: real-time input, judged by those ops only
+	injBytes       int         // bytes handed to the tty by `inj`
+	escOK          bool        // the last `esccheck` / `keycheck` passed
 }
 
 func (sc *scenario) find(class, f string, a ...interface{}) {
@@ -961,8 +982,13 @@ func (sc *scenario) pauseCheck(n int) {
 }
 
 func (sc *scenario) consumerPoll() {
+	sc.pollLoop(0)
+	sc.consDone.Store(true)
+}
+
+// pollLoop: PollEvent until it returns nil; n = events consumed so far (for the pause rule)
+func (sc *scenario) pollLoop(n int) {
 	c := sc.c
-	n := 0
 	for {
 		sc.pauseCheck(n)
 		must := false
@@ -984,7 +1010,6 @@ func (sc *scenario) consumerPoll() {
 		sc.record(ev)
 		n++
 	}
-	sc.consDone.Store(true)
 }
 
 func (sc *scenario) consumerChan() {
@@ -996,6 +1021,11 @@ func (sc *scenario) consumerChan() {
 		ev, ok := <-sc.ch
 		if !ok {
 			c.env("recv-closed")
+			if sc.userQuitClosed.Load() && !sc.finiDone {
+				// the application closed ITS quit channel (the screen lives on) and goes on consuming with PollEvent
+				sc.tag("poll-after-userquit")
+				sc.pollLoop(n)
+			}
 			break
 		}
 		c.mu.Lock()
@@ -1496,6 +1526,58 @@ func (sc *scenario) director(nPost, perPost int, postWait bool) {
 				sc.fmu.Unlock()
 				c.env("size:" + f[1] + "," + f[2])
 				sc.tty.resize(atoi(f[1]), atoi(f[2]))
+			}
+		case "userquit":
+			// the application closes the quit channel it gave to ChannelEvents; the screen is NOT finished
+			if sc.chanMode && !sc.userQuitClosed.Load() {
+				c.park("dir-step", nil, false)
+				c.mu.Lock()
+				c.userQuit = true
+				held := false
+				for _, g := range c.order {
+					if g.name == "ce" && !g.done && g.parked && g.point == "ce-fwd" {
+						held = true
+					}
+				}
+				full := c.eqCap > 0 && c.eq >= c.eqCap
+				c.mu.Unlock()
+				sc.tag("userquit")
+				if held {
+					sc.tag("userquit-while-forward-blocked")
+					if !full {
+						sc.tag("userquit-while-forward-blocked-queue-has-room")
+					}
+				}
+				c.env("userquit")
+				sc.userQuitClosed.Store(true)
+				close(sc.userQuit)
+			}
+		case "disablepaste":
+			c.park("dir-step", nil, false)
+			sc.tag("disablepaste")
+			s.DisablePaste()
+		case "enablepaste":
+			c.park("dir-step", nil, false)
+			s.EnablePaste()
+		case "checktail":
+			c.park("wait-stall", never, true)
+			sc.tailCheck()
+		case "inj":
+			// real-time input (free running only): the bytes go to the tty now
+			if len(f) >= 2 && c.free.Load() {
+				b, _ := hex.DecodeString(f[1])
+				sc.timed = true
+				sc.injBytes += len(b)
+				sc.tag("timed-input")
+				sc.tty.inject(b)
+			}
+		case "esccheck":
+			if c.free.Load() {
+				sc.escCheck()
+			}
+		case "keycheck":
+			if len(f) >= 2 && c.free.Load() {
+				sc.keyCheck(f[1])
 			}
 		case "mid":
 			// input arriving between Suspend and Resume (after the first batch is completely in the tty)
